@@ -88,26 +88,26 @@ CLAIMED.update({
 
 # clauses added during the seeded rounds (appended to the claimed text)
 ADDED = {
- "C01": " Further structural clauses: validators read the example only through Unquote()/NewNumber(); string lengths are counted in characters; every registered type is checked on every path of CheckRootSchema; the recursion guard of the allowed-JSON-types walk is path-scoped; the decimal predicate tables, zero normalisation and normalisation must-pass-through of C13. The UUID validator examines every position of every accepted form (tables unrolled); the magnitude comparison of numbers is tabulated per operand role (= C13.cmp). Boolean rules read by mere presence are removed when false; enum membership compares value and kind; the \\u decoder table.",
- "C02": " Further: the complete inventory of variable-index element accesses (loop-bounded, guarded, clamped counter, generated, or tabled with its invariant); push/pop pairing of the scanners' return stacks; calls into third-party code under a recover; visited sets not re-created inside a recursive cycle; panicking standard-library helpers guarded; the invariants behind two table entries are checked by running the enum-grammar and number-grammar products under this property. The OpenAPI conversion never initialises a mutable container from the stored AST; the example builder's expansion counter is only compared with constants. The deferred error converters never re-throw a recovered value unconverted.",
+ "C01": " Further structural clauses: validators read the example only through Unquote()/NewNumber(); string lengths are counted in characters; every registered type is checked on every path of CheckRootSchema; the recursion guard of the allowed-JSON-types walk is path-scoped; the decimal predicate tables, zero normalisation and normalisation must-pass-through of C13. The UUID validator examines every position of every accepted form (tables unrolled); the magnitude comparison of numbers is tabulated per operand role (= C13.cmp). Boolean rules read by mere presence are removed when false; enum membership compares value and kind; the \\u decoder table. Unnamed types get names that are unique across schema objects.",
+ "C02": " Further: the complete inventory of variable-index element accesses (loop-bounded, guarded, clamped counter, generated, or tabled with its invariant); push/pop pairing of the scanners' return stacks; calls into third-party code under a recover; visited sets not re-created inside a recursive cycle; panicking standard-library helpers guarded; the invariants behind two table entries are checked by running the enum-grammar and number-grammar products under this property. The OpenAPI conversion never initialises a mutable container from the stored AST; the example builder's expansion counter is only compared with constants. The deferred error converters never re-throw a recovered value unconverted. A visited set that travels as a parameter is handed on by every call of a recursive cycle.",
  "C03": " Further: per-byte tables of the JSON string decoder (getu4, escapes); one-directional simulation of the RFC 8259 reference (without exponents) by the schema scanner model with bounded stacks; no Trim with a quote cutset. The string states accept exactly the RFC 8259 bytes; the generic stack only pushes, pops one, or copies completely; no rejection is guarded by a size or depth constant.",
  "C04": " Further: sibling consistency of the note-text states for `#` inside multi-line annotations; the decoder tables of C03.",
  "C05": " Further: collector loops visit every element; the recorders of type names append unconditionally; the collector also walks unnamed types; children are looked up by (key, flag); nested allOf rules are visited. Every recursive tree walker follows both object and array children; the shortcut text is split at the pipe in loader and collector alike; only unnamed types of a registered type are copied into the root. The generated names of unnamed types are unique across schema objects; the once wrappers block late callers until the result is stored. AddType registers every kind of type unconditionally.",
  "C06": " Further: every alternative of a choice is walked; every map consulted by the recursion walk is path-scoped (no memo). allOf copies every child of the inherited type (copies keep their constraints); `type: \"mixed\"` keeps the alternatives of a choice.",
  "C07": " Further: parent constraint objects are shared only when immutable; key records are built with the destination's own index; the OpenAPI property listing is one recursive cycle (transitive) with no skipping. allOf copies every child and only unnamed types; slices made with a length are never appended to; the recover of Compile sits inside the once closure. extendWith has no early exit; package openapi does not re-enter through its exported entry points.",
- "C08": " Further: the example builder encodes decoded keys with a JSON encoder; properties are selected by the IsKeyShortcut flag; no literal passes through float64; conversion never writes into the schema's stored AST; no Trim with a quote cutset. The string states of the schema and enum scanners accept exactly the RFC 8259 bytes (literals are copied verbatim into examples). A choice is a key type only when all alternatives agree (39-cell table); enum membership compares value and kind.",
+ "C08": " Further: the example builder encodes decoded keys with a JSON encoder; properties are selected by the IsKeyShortcut flag; no literal passes through float64; conversion never writes into the schema's stored AST; no Trim with a quote cutset. The string states of the schema and enum scanners accept exactly the RFC 8259 bytes (literals are copied verbatim into examples). A choice is a key type only when all alternatives agree (39-cell table); enum membership compares value and kind. The type-name table of the converter answers for every JSON kind and agrees with SchemaType.ToTokenType.",
  "C09": " Further: a map store inside a callee counts only when keyed by the loop key; no %p in any format string (known finding: address-based names of unnamed types); no stateful out-of-module object reached through shared state; conversion does not write into the stored AST.",
  "C10": " Further: registration methods write the receiver only after the last step that can fail; no stateful out-of-module object cached and driven by read-only calls; a registered type's model is neither copied nor left untouched by the root's allOf compilation (known finding). No in-place re-slice of a foreign slice; no write into a []byte parameter or Bytes storage; Example() returns freshly allocated bytes; only unnamed types are copied into the root. Enum.Values() returns a fresh slice. GetAST() returns a node built or copied for the call; Values() copies the bytes of each value.",
  "C11": " Further: lazily built fields are read only after their once has run in the same call; the write-effect rule ranges over the field-reachability closure of the model types; no package-level variable written after init; stateful out-of-module objects must be created per call; known finding: shared type objects rewritten by allOf compilation. No function returns the address of a persistent model field; no in-place re-slice of a foreign slice. The pooled loader's reset clears every field.",
  "C12": " Further: arithmetic of Length() (End()+1 / End() at EndTop / exactly SP,TAB,LF,CR trimmed); Len() and Check() rewind before and after and install a fresh scanner. The generic stack only pushes, pops one, or copies completely; no size or depth limit. The once wrappers store results inside once.Do and load them after it.",
  "C13": " Further: Scan rejects only through the state machine, the finished flag, setExp and the trims, and every successful return passes through all normalisation steps; ParseUint rejects only empty input, non-digits and overflow. cmpAbs/cmpInt/cmpFra/int()/fra() tabulated by operand role over every ordering of the part lengths, every index and every digit pair; the recogniser's counters, setExp and getNatural tabulated (C13.count).",
- "C14": " Further: a skipped blank leaves no trace; both annotation openers are tested together; constant regexps treat LF/CR and SPACE/TAB alike; a line end right after a comment opener ends the empty comment; notes are stored trimmed; every structural state of the rule loader lets NewLine pass; rule names are compared after TrimSpaces().Unquote(). The no-second-annotation guard is installed on every path that ends an inline annotation; a second line-end byte after a line end is absorbed; the end of the input right after the first slash of an annotation is an error. The scanners move their position by single steps only (no search inside a state function); the shortcut text is split at the pipe; an unclosed ### comment is an error. The comma of an object and of an array both allow annotations again. On the scanner model, the end of the input is accepted after a prefix exactly when a line end followed by the end of the input is (alphabet of 16 byte classes, all reachable configurations).",
+ "C14": " Further: a skipped blank leaves no trace; both annotation openers are tested together; constant regexps treat LF/CR and SPACE/TAB alike; a line end right after a comment opener ends the empty comment; notes are stored trimmed; every structural state of the rule loader lets NewLine pass; rule names are compared after TrimSpaces().Unquote(). The no-second-annotation guard is installed on every path that ends an inline annotation; a second line-end byte after a line end is absorbed; the end of the input right after the first slash of an annotation is an error. The scanners move their position by single steps only (no search inside a state function); the shortcut text is split at the pipe; an unclosed ### comment is an error. The comma of an object and of an array both allow annotations again. On the scanner model, the end of the input is accepted after a prefix exactly when a line end followed by the end of the input is (alphabet of 16 byte classes, all reachable configurations). Every path that ends an inline annotation line resets the annotation mode.",
  "C16": " Further: every SetIndex argument is a scanner idiom or tabled; rendering cannot panic (clamped Repeat count); guarded element accesses incl. the variable-index inventory; a registered type has a root node and is registered with its own file; end-of-input handlers close lexemes with their partner; a JSON document is rewound with a fresh scanner. Bytes.LineAndColumn is a per-byte counter program (newline symbol: line+1, column reset; else column+1; 1-based) over data[:index] and is recomputed after SetIndex/SetFile; type registrations pass offset 0 (checkType re-bases by Type.Begin); replacing the file of an error resets its cached length/newline symbol. All fmt format strings are constants; the newline symbol is decided over the whole text (512-cell table); SetFile recounts line and column. The deferred error converters never re-throw a recovered value unconverted.",
  "C17": " Further: both uniqueness maps are keyed by the whole <value, kind> item; the small literal predicates of the two classifiers have equal symbolic accept sets; every transition to the rule-value state records the rule name; an empty `//` comment ends at the line end. An empty rule text is a positioned diagnostic; the end-of-input handlers of the rule scanner and the schema scanner close the same openers; the end of the input right after a single slash is an error. No function writes into a []byte parameter or Bytes storage (the string decoder allocates); string states accept exactly the RFC 8259 bytes. Both annotation openers are recognised wherever one is; Enum.Values() returns a fresh slice.",
  "C18": " Further: the pattern is matched against the decoded string; FromRSchema encodes exactly the result of Pattern(); no pooled buffer is returned from Example(). InQuotes and the classifier's IsString accept the same literals; the \\u decoder table. AddType registers a regex type unconditionally.",
  "C19": " Further: the set constructor appends (no position writes). No method returns the container's order slice or data map itself. Slices made with a length are never appended to. MarshalJSON writes only JSON punctuation and the output of a JSON encoder.",
  "C20": " Further: the five small literal predicates of GuessSchemaType and json.Guess have equal symbolic accept sets. Bytes.InQuotes and GuessData.IsString have equal accept sets.",
- "C15": " Further: NewLine/EndTop lexemes do not move the length; LF differs from SPACE in the pipe-accepting shortcut states; dedicated callees of the return stack leave by a pop. The scanners move their position by single steps only; an unclosed ### comment is an error at the end of the input. On the scanner model, the end of the input is accepted after a prefix exactly when a line end followed by the end of the input is.",
+ "C15": " Further: NewLine/EndTop lexemes do not move the length; LF differs from SPACE in the pipe-accepting shortcut states; dedicated callees of the return stack leave by a pop. The scanners move their position by single steps only; an unclosed ### comment is an error at the end of the input. On the scanner model, the end of the input is accepted after a prefix exactly when a line end followed by the end of the input is. Every path that ends an inline annotation line resets the annotation mode.",
 }
 
 NOT_YET = {}
